@@ -27,8 +27,9 @@ Inductive case :=
 | CProg (wa : bool) (s : sampler) (gens : list (bytes * bytes)) (ops : list start_op)
         (obs : list span_obs) (exp_simple exp_batch : list bytes) (calls : list (bool * bytes))
 (** the same on a provider configured only by OTEL_TRACES_SAMPLER[_ARG]
-    (arg: unset / set but unparsable / parsed bits) *)
-| CEnv (raw : option bytes) (arg : option (option N)) (gens : list (bytes * bytes)) (ops : list start_op)
+    (arg: unset / set but unparsable / parsed bits); err: an error reached the global error handler
+    while the provider was built *)
+| CEnv (raw : option bytes) (arg : option (option N)) (err : bool) (gens : list (bytes * bytes)) (ops : list start_op)
        (obs : list span_obs) (exp_simple exp_batch : list bytes) (calls : list (bool * bytes))
 (** a program on a provider whose ID generator is the stock randomIDGenerator over a scripted
     rand.Source answering [words] and then [fill] for ever; consumed: Int63 calls made on the source *)
@@ -215,10 +216,14 @@ Definition check_case (c : case) : list N :=
   | CProg wa s gens ops obs e1 e2 calls =>
       flag (prog_mismatch wa s gens ops obs e1 e2 calls) V_MISMATCH ++
       flag (prog_spec s gens ops obs e1 e2 calls) V_SPECFAIL
-  | CEnv raw arg gens ops obs e1 e2 calls =>
+  | CEnv raw arg err gens ops obs e1 e2 calls =>
       let s := provider_sampler raw arg in
-      flag (prog_mismatch false s gens ops obs e1 e2 calls) V_MISMATCH ++
-      flag (prog_spec s gens ops obs e1 e2 calls) V_SPECFAIL
+      flag (prog_mismatch false s gens ops obs e1 e2 calls && Bool.eqb (env_error raw arg) err) V_MISMATCH ++
+      (* a rejected configuration falls back to sampling every root (c09_env_sampler) *)
+      flag (prog_spec s gens ops obs e1 e2 calls &&
+            (if err then forall2b (fun o so => implb (zero (o_tid (if newroot o then octx_of zero_sc else parent_obs obs (par o))))
+                                                    (sampled_flag (o_flags (so_ctx so)))) ops obs
+             else true)) V_SPECFAIL
   | CStock words fill s ops obs e1 e2 consumed =>
       flag (stock_mismatch words fill s ops obs e1 e2 consumed) V_MISMATCH ++
       flag (stock_spec s ops obs e1 e2) V_SPECFAIL
